@@ -191,6 +191,8 @@ def match_pat(p, v, binds):
             return False
         if v is None:
             return False
+        if isinstance(v, StructVal) and v.tyname != name:
+            return False  # a struct-like variant of the same enum
         raise Unknown("tuple-struct pattern %s" % p["s"])
     if k == "struct":
         name = p["path"][-1]
@@ -203,6 +205,10 @@ def match_pat(p, v, binds):
                 if not match_pat(f["pat"], v[f["name"]], binds):
                     return False
             return True
+        if isinstance(v, EnumVal):
+            if v.name != name:
+                return False  # another variant of the same enum
+            raise Unknown("struct pattern on tuple variant %s" % name)
         if not isinstance(v, OpVal):
             raise Unknown("struct pattern on non-operator")
         if v.variant != name:
